@@ -416,7 +416,10 @@ pub fn drive(prop: &dyn Prop, cfg: &DriverCfg) -> Report {
       }
     }
   }
-  for (c, o) in prop.post_stage(cfg.tier, cfg.seed, cfg.bins.get("chk").map(|s| s.as_str()).unwrap_or("")) { extra_cases.push((c, o, "chk".into())); }
+  // (a run restricted to some cells with --cell is a debugging aid: the post stages are skipped unless the filter names a stage)
+  if cfg.only_cell.as_deref().map(|f| f.starts_with("stage=")).unwrap_or(true) {
+    for (c, o) in prop.post_stage(cfg.tier, cfg.seed, cfg.bins.get("chk").map(|s| s.as_str()).unwrap_or("")) { extra_cases.push((c, o, "chk".into())); }
+  }
 
   // aggregate
   let mut evals = 0usize;
@@ -549,6 +552,7 @@ pub fn drive(prop: &dyn Prop, cfg: &DriverCfg) -> Report {
   println!("property={} tier={} seed={} evaluations={} distinct_nontrivial={} held={} violated={} (listed {}) inconclusive={} cells={} tags={} wall={:.1}s",
     pid, cfg.tier.name(), cfg.seed, evals, distinct_nontrivial, held, violated, violated - unknown_violations.len().min(violated), inconcl, cells.len(), tags.len(), wall);
   for (k, v) in &viol_classes { println!("  class {} x{}", k, v); }
+  if let Ok(pre) = std::env::var("VERIF_SHOW_TAGS") { for (k, v) in tags.iter().filter(|(k, _)| pre.split(',').any(|p| k.starts_with(p))) { println!("  tag {} x{}", k, v); } }
   for (k, v) in &inconcl_reasons { println!("  inconclusive {} x{}", k, v); }
   for l in &kf_lines { println!("{}", l); }
   if !unknown_violations.is_empty() {
